@@ -187,6 +187,14 @@ def build(ctx, prop_files, variants=("plain",), need_model=True):
 THM_RE = re.compile(r"^\s*(Theorem|Lemma|Corollary|Example)\s+([A-Za-z0-9_']+)", re.M)
 
 
+REFINE_OF = {
+    "C01": r"refine_(vocabulary_(log|inv|fsr|prog|fp)|fsr_pyramid|api_fsr|pack|blocks|prog_fsr)",
+    "C11": r"refine_(vocabulary_ts|ts_|api_annotation)",
+    "C12": r"refine_(ts_track$|ts_codecs|api_utc)",
+    "C13": r"refine_(source|signal|cstr|user_data|sig_align|valid_has|step_rc|run_)",
+}
+
+
 def collect_obligations(ctx, vfile):
     path = os.path.join(COQ, vfile)
     names = [m.group(2) for m in THM_RE.finditer(open(path).read())]
@@ -198,6 +206,8 @@ def collect_obligations(ctx, vfile):
     for i, n in enumerate(names):
         if vfile == "Properties_gen.v" and not n.startswith(ctx.prop + "_"):
             continue      # the file holds the generated-model theorems of several properties; each check lists its own
+        if vfile == "Properties_refine.v" and not re.match(REFINE_OF.get(ctx.prop, "^$"), n):
+            continue      # refinement glue (byte-exact writer model -> component models): each check lists the part about its component
         ax = None
         if i < len(blocks):
             b = blocks[i]
